@@ -151,6 +151,8 @@ func _yieldUnmarshalMachinePtrForAtlasEntry(row *unmarshalSlabRow, entry *atlas.
 		row.unmarshalMachineTransform.recv_rt = entry.UnmarshalTransformTargetType
 		// Pick delegate without growing stack.  (This currently means recursive transform won't fly.)
 		row.unmarshalMachineTransform.delegate = _yieldUnmarshalMachinePtr(row, atl, entry.UnmarshalTransformTargetType)
+		row.unmarshalMachineTransform.tagged = entry.Tagged
+		row.unmarshalMachineTransform.tag = entry.Tag
 		return &row.unmarshalMachineTransform
 	case entry.StructMap != nil:
 		row.unmarshalMachineStructAtlas.cfg = entry
